@@ -2,61 +2,65 @@
  * Elementary changes: exchange of two neighbouring identities / features / form fields / values of one field, and insertion of a
  * second copy of a feature.  Every reordering is a sequence of neighbour exchanges and every repetition a sequence of such
  * insertions (followed by exchanges), so blindness to each elementary change is blindness to all of them -- for lists within the bound. */
-static inline int fresh_list(int n) { int id = pool_new(); for (int i = 0; i < BL; i++) gb_pool[id][i] = i < n ? nondet_int() : 0; return id; }
-/* a new list: src with the elements at k and k+1 exchanged (k in [0, n-2]; unchanged if k is outside) */
-static inline int exchanged(int src, int n, int k)
+#define NSTR 8          /* string values are drawn from NSTR values (more than the BL that one list can hold) */
+static inline int small(void) { int v = nondet_int(); __CPROVER_assume(0 <= v && v < NSTR); return v; }
+static inline QLst fresh_list(int n) { QLst l; l.n = n; for (int i = 0; i < BL; i++) l.e[i] = i < n ? small() : 0; return l; }
+/* src with the elements at k and k+1 exchanged (k in [0, n-2]; unchanged if k is outside) */
+static inline QLst exchanged(QLst src, int k)
 {
-  int id = pool_new();
-  for (int i = 0; i < BL; i++) gb_pool[id][i] = gb_pool[src][i];
-  for (int i = 0; i + 1 < BL; i++) if (i == k && i + 1 < n) { gb_pool[id][i] = gb_pool[src][i + 1]; gb_pool[id][i + 1] = gb_pool[src][i]; }
-  return id;
+  QLst r = src;
+  for (int i = 0; i + 1 < BL; i++) if (i == k && i + 1 < src.n) { r.e[i] = src.e[i + 1]; r.e[i + 1] = src.e[i]; }
+  return r;
 }
-/* a new list of n+1 elements: src with a copy of element j inserted at position k (0 <= j < n, 0 <= k <= n, n < BL) */
-static inline int duplicated(int src, int n, int j, int k)
+/* src (n < BL elements) with a copy of element j inserted at position k (0 <= j < n, 0 <= k <= n) */
+static inline QLst duplicated(QLst src, int j, int k)
 {
-  int id = pool_new();
-  int e = gb_pool[src][j < 0 || j >= BL ? 0 : j];
-  for (int i = 0; i < BL; i++) gb_pool[id][i] = i < k ? gb_pool[src][i] : i == k ? e : gb_pool[src][i - 1];
-  return id;
+  QLst r; int e = src.e[j < 0 || j >= BL ? 0 : j];
+  for (int i = 0; i < BL; i++) r.e[i] = i < k ? src.e[i] : i == k ? e : src.e[i - 1];
+  r.n = src.n + 1;
+  return r;
 }
 void h_perm(void)
 {
-  gb_pool_next = 0; gb_map_next = 1; gb_map[0].n = 0;
+  gb_map_next = 1; gb_map[0].n = 0;
   QXmppDiscoveryIqPrivate d1, d2; QXmppDiscoveryIq q1, q2; q1.d = &d1; q2.d = &d2;
   int mode = BOUNDED_MODE;    /* 0 identities exchanged, 1 features exchanged, 2 feature repeated, 3 fields exchanged, 4 values of one field exchanged */
   int k = nondet_int(), j = nondet_int();
   __CPROVER_assume(0 <= k && k < BL && 0 <= j && j < BL);
   /* identities */
-  int ni = nondet_int(); __CPROVER_assume(0 <= ni && ni <= BL);
-  d1.identities.id = fresh_list(ni); d1.identities.n = ni;
-  d2.identities = d1.identities;
-  if (mode == 0) d2.identities.id = exchanged(d1.identities.id, ni, k);
+  /* the part of the info set that is not being changed is kept small (at most one element) */
+  int ni = nondet_int(); __CPROVER_assume(0 <= ni && ni <= (mode == 0 ? BL : 1));
+  d1.identities = fresh_list(ni);
+  for (int i = 0; i < BL; i++) {     /* identity i of the list is table entry i: any four strings (equal 4-tuples included) */
+    d1.identities.e[i] = i < ni ? i : 0;
+    gb_ident[i].category = small(); gb_ident[i].type = small(); gb_ident[i].language = small(); gb_ident[i].name = small();
+  }
+  d2.identities = mode == 0 ? exchanged(d1.identities, k) : d1.identities;
   /* features */
-  int n1 = nondet_int(); __CPROVER_assume(0 <= n1 && n1 <= BL);
-  d1.features.id = fresh_list(n1); d1.features.n = n1;
-  d2.features = d1.features;
-  if (mode == 1) d2.features.id = exchanged(d1.features.id, n1, k);
-  if (mode == 2) { __CPROVER_assume(n1 < BL && j < n1 && k <= n1); d2.features.id = duplicated(d1.features.id, n1, j, k); d2.features.n = n1 + 1; }
+  int n1 = nondet_int(); __CPROVER_assume(0 <= n1 && n1 <= (mode == 1 || mode == 2 ? BL : 1));
+  d1.features = fresh_list(n1);
+  d2.features = mode == 1 ? exchanged(d1.features, k) : d1.features;
+  if (mode == 2) { __CPROVER_assume(n1 < BL && j < n1 && k <= n1); d2.features = duplicated(d1.features, j, k); }
   /* form: absent in both, or the same fields (distinct vars) */
-  bool isnull = nondet_bool();
+  bool isnull = mode < 3 ? true : nondet_bool();
   int nf = nondet_int(); __CPROVER_assume(0 <= nf && nf <= BL);
-  int f1 = pool_new();
+  QLst f1, f2; f1.n = nf; f2.n = nf;
   for (int i = 0; i < BL; i++) {
-    gb_pool[f1][i] = i < nf ? i : 0;
-    BField a; a.key = nondet_int(); a.kind = nondet_int(); a.s = nondet_int(); a.b = nondet_bool(); a.listn = nondet_int();
-    __CPROVER_assume(a.kind >= VK_INVALID && a.kind <= VK_BOOL && a.listn >= 0 && a.listn <= BL);
+    f1.e[i] = i < nf ? i : 0;
+    f2.e[i] = i < nf ? BL + i : 0;
+    BField a; a.key = small(); a.kind = nondet_int(); a.s = small(); a.b = nondet_bool();
+    int nv = nondet_int();
+    __CPROVER_assume(a.kind >= VK_INVALID && a.kind <= VK_BOOL && nv >= 0 && nv <= BL);
     for (int m = 0; m < BL; m++) __CPROVER_assume(m >= i || gb_field[m].key != a.key);       /* XEP-0004: vars are unique */
-    a.list = fresh_list(a.listn);
+    a.list = fresh_list(nv);
     gb_field[i] = a;
     BField c = a;
-    if (mode == 4 && i == j) c.list = exchanged(a.list, a.listn, k);
+    if (mode == 4 && i == j) c.list = exchanged(a.list, k);
     gb_field[BL + i] = c;
   }
-  int f2 = pool_new();
-  for (int i = 0; i < BL; i++) gb_pool[f2][i] = i < nf ? BL + i : 0;
-  if (mode == 3) f2 = exchanged(f2, nf, k);
-  gb_form[0].isnull = isnull; gb_form[0].fields = f1; gb_form[0].nfields = nf;
-  gb_form[1].isnull = isnull; gb_form[1].fields = f2; gb_form[1].nfields = nf;
+  if (mode == 3) f2 = exchanged(f2, k);
+  gb_form[0].isnull = isnull; gb_form[0].fields = f1;
+  gb_form[1].isnull = isnull; gb_form[1].fields = f2;
   d1.form = 0; d2.form = 1;
   d1.queryNode = 0; d2.queryNode = 0; d1.queryType = 0; d2.queryType = 0;
   qba r1 = QXmppDiscoveryIq_verificationString(&q1);
